@@ -81,6 +81,14 @@ func c14Check(r *Run, input string, writes []*WriteRec, calls []*Call, mode stri
 	// 1. one Write per frame
 	var stream []byte
 	for _, wr := range writes {
+		if wr.Changed {
+			// a transport that reads the buffer late puts these octets on the wire instead
+			r.Fail("wire/"+mode+"/buffer-reused-during-write", "the buffer handed to the transport was overwritten (by another call) while the Write call was still in progress", input,
+				fmt.Sprintf("Write #%d: at the call %s, at its return %s", wr.Idx, hex.EncodeToString(wr.Data[:min(len(wr.Data), 32)]), hex.EncodeToString(wr.Final[:min(len(wr.Final), 32)])),
+				"every frame on the wire is the Marshal encoding of the PDU of its own call")
+			stream = append(stream, wr.Final...)
+			continue
+		}
 		stream = append(stream, wr.Data...)
 		if !wr.Full {
 			r.Fail("wire/"+mode+"/frame-not-in-one-write", "a transport Write call did not carry exactly one whole frame",
@@ -157,7 +165,7 @@ func corrC14(r *Run) {
 	r.PerShard(12)
 	r.Rule = "forced schedules: 2..6 goroutines issuing 1..4 Send/Submit calls each with PDUs of all registered types (frames up to 3 kB, a few up to 20 kB), " +
 		"every transport Write held and released in a random order, responses before or after the Write returns, non-positive sequence numbers, " +
-		"unmarshallable packets, frames of 33..60 kB (beyond a 32 KiB copy buffer) and, with a write timeout configured, calls whose SetWriteDeadline the transport refuses mixed in; plus free-running rounds on the writer-holding transport of the property text; " +
+		"unmarshallable packets, bare header-only PDUs of one type (enquire_link) from all goroutines at once, frames of 33..60 kB (beyond a 32 KiB copy buffer) and, with a write timeout configured, calls whose SetWriteDeadline the transport refuses mixed in; plus free-running rounds on the writer-holding transport of the property text; " +
 		"non-trivial = schedules with at least two goroutines holding a Write at the same time; distinct by event list"
 	ts := pduTypes()
 	nForced := r.N(100, 1500)
@@ -202,6 +210,15 @@ func c14Forced(r *Run, ts []pduType, idx int) {
 			p := genSendable(rng, ts, kind == "submit", limit)
 			if rng.Intn(70) == 0 || (idx == 2 && g == 0 && j == 0) {
 				p = genBigPDU(rng) // a frame that does not fit a 32 KiB copy buffer
+			}
+			if bare := rng.Intn(9); bare < 2 || idx%8 == 3 {
+				// header-only PDUs of one type from several goroutines at once: every frame differs from
+				// its neighbours in the sequence number only
+				kind = "send"
+				p = &pdu.EnquireLink{}
+				if bare == 1 {
+					p = &pdu.EnquireLinkResp{}
+				}
 			}
 			seq += int32(1 + rng.Intn(3))
 			s := seq
@@ -304,6 +321,9 @@ func c14Free(r *Run, ts []pduType, idx int) {
 			p := genSendable(rng, ts, false, 3000)
 			if rng.Intn(60) == 0 || (idx == 0 && g == 0 && j == 1) {
 				p = genBigPDU(rng)
+			}
+			if bare := rng.Intn(6); bare == 0 || idx%3 == 1 {
+				p = &pdu.EnquireLink{} // all goroutines send the same header-only type: frames differ in the sequence number only
 			}
 			seq++
 			s := seq
